@@ -1,11 +1,13 @@
-"""Which engines and which Coq files decide which property."""
+"""Property registry: lib/propdefs/Cnn.py defines PROP = {engines: [(engine, mode)], level_text, assumptions, [rule], [level_note], [technique]}."""
+import os, glob, importlib.util
 RULE = "a trace is non-trivial when at least one operation changes the observable state; distinct = distinct configuration+operation text"
-ENGINE_DIRS = {"rbuf": "Rbuf"}
+PROPS = {}
 NOT_CLAIMED = {}
-PROPS = {
-    "C19": {"engines": [("rbuf", "default")], "rule": RULE,
-            "level_text": "Theorems C19_run_refines/C19_step_refines (Coq): every enqueue/dequeue history on a ring buffer of any capacity >= 1 refines the bounded FIFO "
-                          "(statuses, out-values, held items, size), no step faults; the enqueue branch conditions are regenerated from cc_ring_buffer.c on every run, "
-                          "and the model is run against the compiled code on all histories of length <= 9 (13 thorough) for capacities 1-4 plus random long histories.",
-            "assumptions": ["capacity*8 < 2^64 (the buffer allocation size is representable)", "cc_rbuf_peek is a raw slot read and is outside the property"]},
-}
+for _f in sorted(glob.glob(os.path.join(os.path.dirname(os.path.abspath(__file__)), "propdefs", "C*.py"))):
+    _spec = importlib.util.spec_from_file_location(os.path.basename(_f)[:-3], _f)
+    _m = importlib.util.module_from_spec(_spec); _spec.loader.exec_module(_m)
+    if hasattr(_m, "PROP"):
+        _m.PROP.setdefault("rule", RULE)
+        PROPS[os.path.basename(_f)[:-3]] = _m.PROP
+    if hasattr(_m, "NOT_CLAIMED"):
+        NOT_CLAIMED[os.path.basename(_f)[:-3]] = _m.NOT_CLAIMED
